@@ -1696,6 +1696,9 @@ impl World {
 
         // direct oracles
         for a in take_anomalies() {
+            if a.starts_with("Entry::key()") || a.contains("handle returned by") {
+                self.fail(&["C12"], a.clone());
+            }
             self.fail(&["C05", "C06"], a);
         }
         if let Some(p) = &panic_kind {
@@ -1928,6 +1931,7 @@ impl World {
         let m = self.maps[mid].as_mut().unwrap();
         let raw = via != 0;
         let occ0 = rmap.contains_key(&k);
+        let stored_kid: Option<u64> = rmap.get(&k).map(|e| e.0);
         // objects are created up front so their ids are in the transcript; unused ones are dropped
         // inside the window exactly where the API drops them
         let entry_key = if raw { None } else { Some(Key::new(k)) };
@@ -2013,6 +2017,19 @@ impl World {
         let cr = windowed(|| {
             if !raw {
                 let mut e = m.entry(entry_key.unwrap());
+                // `Entry::key()` names the key OBJECT: the stored one for an occupied entry, the caller's for a vacant one
+                match stored_kid {
+                    Some(sk) => {
+                        if e.key().id != sk {
+                            anomaly(format!("Entry::key() of an occupied entry names object {} but the map stores object {sk}", e.key().id));
+                        }
+                    }
+                    None => {
+                        if e.key().id != entry_kid {
+                            anomaly("Entry::key() of a vacant entry does not name the key passed to entry()".into());
+                        }
+                    }
+                }
                 let mut it = prepared.into_iter();
                 loop {
                     let Some(p) = it.next() else { drop(e); break };
